@@ -1,6 +1,8 @@
 package main
 
 import (
+	"os"
+	"path/filepath"
 	"time"
 
 	"qeepverif/internal/run"
@@ -53,6 +55,15 @@ func symCheck(s symSpec) checkFn {
 	}
 }
 
+var c16sym checkFn
+
+func writeWork(c *run.Ctx, name, content string) error {
+	if err := os.WriteFile(filepath.Join(c.Work, name), []byte(content), 0o644); err != nil {
+		return run.Brokenf("%v", err)
+	}
+	return nil
+}
+
 func init() {
 	register("C03", "exploration", symCheck(symSpec{
 		module: "Gen_C03", partsQ: 4, partsT: 16, assignQ: 6, assignT: 12, timeoutT: 40 * time.Minute,
@@ -99,11 +110,17 @@ func init() {
 		rule:        "activation x shape x {input is a leaf, input is the interior tensor x.Scale(3)} x parameter (slopes, every Softmax dim), z = act(x)*g, BackPropagate(z); gradient of the input (and of the leaf upstream) compared with the derivative of the activation's definition; at exactly 0 Relu/LeakyRelu accept any value between the one-sided derivatives; Softmax closed form checked by TLC; Softmax cases carry the asis expectation of finding D2; distinct = distinct program",
 		assumptions: []string{"known finding D2 reaches this property through the expanding Div inside Softmax (known_findings.json)"},
 	}))
-	register("C16", "exploration", symCheck(symSpec{
+	register("C16", "exploration", func(c *run.Ctx) error {
+		if err := c16sym(c); err != nil {
+			return err
+		}
+		return fcHistories(c)
+	})
+	c16sym = symCheck(symSpec{
 		module: "Gen_C16", partsQ: 4, partsT: 16, assignQ: 8, assignT: 20,
-		rule:        "batch, features, outputs in 1..3 (1..4) x 5 subsets of tracked {W, B, x}; layer built by NewFC, parameters replaced through the Weights() pointers, Forward, z = y*g, BackPropagate(z); values and gradients compared with y[b][o] = W[o]*sum_d x[b][d] + B[o] and its derivatives (distinct symbols everywhere); rejected input ranks; batch > 1 carries the asis expectation of finding D2 for W and B; distinct = distinct (sizes, tracked subset)",
+		rule:        "batch, features, outputs in 1..3 (1..4) x 5 subsets of tracked {W, B, x}; layer built by NewFC, parameters replaced through the Weights() pointers, Forward, z = y*g, BackPropagate(z); values and gradients compared with y[b][o] = W[o]*sum_d x[b][d] + B[o] and its derivatives (distinct symbols everywhere); rejected input ranks; batch > 1 carries the asis expectation of finding D2 for W and B; plus spec/FCParams.tla: EVERY history up to 5 (6) actions of Weights() calls, replacements of W / B through the first pointers ever obtained, the most recent ones or the exported field, and Forward calls - the output of each Forward must be the formula on the parameters currently behind the pointers; distinct = distinct (sizes, tracked subset) + distinct histories",
 		assumptions: []string{"known finding D2: W and B are expanded over the batch (known_findings.json)"},
-	}))
+	})
 	register("C17", "exploration", symCheck(symSpec{
 		module: "Gen_C17", partsQ: 2, partsT: 8, assignQ: 8, assignT: 24,
 		rule: "shape x learning rate {nil config, 0, -1/2, 2, 1/3}: w tracked leaf, BackPropagate(w*c) so that grad(w) = c, Update(&w): new tensor = w - lr*g element-wise with the same shape, pointer target replaced, old tensor object / values / gradient unchanged (bit-for-bit snapshots); a tensor without gradient must be rejected with nothing replaced; distinct = distinct (shape, learning rate)",
